@@ -768,10 +768,29 @@ func (env *SpecEnv) call(c *ast.CallExpr) Val {
 				return env.applyPred(p, c.Args)
 			}
 		}
+		if g := fc.eng.ghosts[id.Name]; g != nil && g.Field {
+			ref := refOf(env.expr(c.Args[0]))
+			t := fc.loadLoc(env.st, loc{name: "GH$" + g.Name, idx: []string{ref}, sort: g.Ret})
+			switch g.Ret {
+			case "Bool":
+				return boolVal(t)
+			case "String":
+				return strVal(types.Typ[types.String], t)
+			}
+			return intVal(untypedInt, t)
+		}
 		if g := fc.eng.ghosts[id.Name]; g != nil {
 			var as []string
-			for _, a := range c.Args {
+			var sorts []string
+			for i, a := range c.Args {
 				v := env.expr(a)
+				if i < len(g.Params) && g.Params[i] == "bytes" {
+					if v.K != KSlice {
+						env.fail("ghost %s: argument %d must be a byte slice", g.Name, i)
+					}
+					as = append(as, tSel(fc.elemArray(env.st, v), v.Arr), v.Off, v.Len)
+					continue
+				}
 				switch v.K {
 				case KAddr:
 					as = append(as, v.A.Base)
@@ -781,7 +800,14 @@ func (env *SpecEnv) call(c *ast.CallExpr) Val {
 					as = append(as, v.S)
 				}
 			}
-			fc.sc.declareFun("g_"+g.Name, g.Params, g.Ret)
+			for _, p := range g.Params {
+				if p == "bytes" {
+					sorts = append(sorts, "(Array Int Int)", "Int", "Int")
+				} else {
+					sorts = append(sorts, p)
+				}
+			}
+			fc.sc.declareFun("g_"+g.Name, sorts, g.Ret)
 			t := sx("g_"+g.Name, as...)
 			if len(as) == 0 {
 				t = "g_" + g.Name
@@ -857,6 +883,17 @@ func (env *SpecEnv) call(c *ast.CallExpr) Val {
 	}
 	env.fail("unsupported call %s", types.ExprString(c))
 	return Val{}
+}
+
+// refOf: the object identity of a value (pointer ref, interface payload, slice array, map ref).
+func refOf(v Val) string {
+	switch v.K {
+	case KAddr:
+		return v.A.Base
+	case KSlice:
+		return v.Arr
+	}
+	return v.S
 }
 
 func namedOf(t types.Type) *types.Named {
